@@ -323,6 +323,13 @@ def run_case(c):
                 return [e[2] for b in t.bars for e in b.bar if e[2] is not None]
             nc_ops = [lambda n: n.transpose("2"), lambda n: n.add_note("B"), lambda n: n.notes[0].augment(), lambda n: n.empty()]
             scenario("entries of a track built from a chord list", chord_entries, nc_ops)
+            def chord_entries_tuned():
+                from mingus.extra import tunings as _t
+                t = Track()
+                t.set_tuning(_t.get_tuning("Guitar", "Standard"))
+                t.from_chords(["C", "G7", "C", ["Am", "Am"], "C"], 1)
+                return [e[2] for b in t.bars for e in b.bar if e[2] is not None]
+            scenario("entries of a track with a string tuning built from a chord list (fingered chords)", chord_entries_tuned, nc_ops)
             return lines
         return [{"op": "begin", "in": {}, "ok": True, "err": "", "out": 0}] + [dict(ln, ok=True, err="", out=0) for ln in in_child(work)]
     if kind == "args":
